@@ -37,7 +37,7 @@ func main() {
 	rng := lib.NewRng(run.Seed)
 	st := lib.NewStats("C12", "block trees on the real regnet BlockChain (fixture): trunk 1-6, 1-3 forks of depth 1-5 (25% forking off an earlier fork), <= 12 blocks, 35% with one context-invalid block (over-paying coinbase or double spend of the genesis output) inside a branch that ends above the trunk, 10% with an insane (no PoW) block; delivery natural / reversed (orphans first) / shuffled, 20% with a repeated delivery. nontrivial = history with a reorganisation, an orphan or an error; distinct by observation log")
 	sh := &lib.Shards{Dir: run.Out, Imports: "From ELA Require Import corr.C12_corr.", CaseType: "C12_corr.case",
-		Mismatch: "C12_corr.mismatches", Scope: "Z", PerShard: 25}
+		Mismatch: "C12_corr.mismatches", Scope: "Z", PerShard: 10}
 	id := 0
 
 	doHist := func(h *chaincase.Hist) {
